@@ -55,24 +55,34 @@ pub enum CanonError {
 
 type Result<T> = result::Result<T, CanonError>;
 
+/// Maximum number of arrays/maps that may enclose a value.
+///
+/// Encoder and decoder recurse once per container, so the bound keeps stack use
+/// independent of the input; both sides apply the same limit so every encodable
+/// value still decodes.
+const MAX_NESTING_DEPTH: usize = 128;
+
 /// Encode a `ciborium::value::Value` to deterministic CBOR bytes.
 pub fn encode_value(val: &Value) -> Result<Vec<u8>> {
     let mut out = Vec::new();
-    enc_value(val, &mut out)?;
+    enc_value(val, &mut out, 0)?;
     Ok(out)
 }
 
 /// Decode deterministic CBOR bytes into a `ciborium::value::Value`.
 pub fn decode_value(bytes: &[u8]) -> Result<Value> {
     let mut idx = 0usize;
-    let v = dec_value(bytes, &mut idx)?;
+    let v = dec_value(bytes, &mut idx, 0)?;
     if idx != bytes.len() {
         return Err(CanonError::Trailing);
     }
     Ok(v)
 }
 
-fn enc_value(v: &Value, out: &mut Vec<u8>) -> Result<()> {
+fn enc_value(v: &Value, out: &mut Vec<u8>, depth: usize) -> Result<()> {
+    if depth >= MAX_NESTING_DEPTH && matches!(v, Value::Array(_) | Value::Map(_)) {
+        return Err(CanonError::Encode("nesting too deep".into()));
+    }
     match v {
         Value::Bool(b) => {
             out.push(if *b { 0xf5 } else { 0xf4 });
@@ -85,14 +95,14 @@ fn enc_value(v: &Value, out: &mut Vec<u8>) -> Result<()> {
         Value::Array(items) => {
             enc_len(4, items.len() as u64, out);
             for it in items {
-                enc_value(it, out)?;
+                enc_value(it, out, depth + 1)?;
             }
         }
         Value::Map(entries) => {
             let mut buf: Vec<(Value, Value, Vec<u8>)> = Vec::with_capacity(entries.len());
             for (k, v) in entries {
                 let mut kb = Vec::new();
-                enc_value(k, &mut kb)?;
+                enc_value(k, &mut kb, depth + 1)?;
                 buf.push((k.clone(), v.clone(), kb));
             }
 
@@ -107,7 +117,7 @@ fn enc_value(v: &Value, out: &mut Vec<u8>) -> Result<()> {
             enc_len(5, buf.len() as u64, out);
             for (_k, v, kb) in buf {
                 out.extend_from_slice(&kb);
-                enc_value(&v, out)?;
+                enc_value(&v, out, depth + 1)?;
             }
         }
         Value::Tag(_, _) => return Err(CanonError::Tag),
@@ -220,7 +230,7 @@ fn write_major(major: u8, n: u128, out: &mut Vec<u8>) {
     }
 }
 
-fn dec_value(bytes: &[u8], idx: &mut usize) -> Result<Value> {
+fn dec_value(bytes: &[u8], idx: &mut usize, depth: usize) -> Result<Value> {
     fn need(bytes: &[u8], idx: usize, n: usize) -> Result<()> {
         if bytes.len().saturating_sub(idx) < n {
             Err(CanonError::Incomplete)
@@ -234,6 +244,9 @@ fn dec_value(bytes: &[u8], idx: &mut usize) -> Result<Value> {
     *idx += 1;
     let major = b0 >> 5;
     let info = b0 & 0x1f;
+    if depth >= MAX_NESTING_DEPTH && matches!(major, 4 | 5) {
+        return Err(CanonError::Decode("nesting too deep".into()));
+    }
 
     fn read_uint(bytes: &[u8], idx: &mut usize, nbytes: usize) -> Result<u64> {
         need(bytes, *idx, nbytes)?;
@@ -323,7 +336,7 @@ fn dec_value(bytes: &[u8], idx: &mut usize) -> Result<Value> {
             // Every element occupies at least one byte: never reserve more than the input holds.
             let mut items = Vec::with_capacity(len.min(bytes.len().saturating_sub(*idx)));
             for _ in 0..len {
-                items.push(dec_value(bytes, idx)?);
+                items.push(dec_value(bytes, idx, depth + 1)?);
             }
             Ok(Value::Array(items))
         }
@@ -334,7 +347,7 @@ fn dec_value(bytes: &[u8], idx: &mut usize) -> Result<Value> {
             let mut last_key: Option<Vec<u8>> = None;
             for _ in 0..len {
                 let key_start = *idx;
-                let k = dec_value(bytes, idx)?;
+                let k = dec_value(bytes, idx, depth + 1)?;
                 let key_end = *idx;
                 let kb = &bytes[key_start..key_end];
                 if let Some(prev) = &last_key {
@@ -345,7 +358,7 @@ fn dec_value(bytes: &[u8], idx: &mut usize) -> Result<Value> {
                     }
                 }
                 last_key = Some(kb.to_vec());
-                let v = dec_value(bytes, idx)?;
+                let v = dec_value(bytes, idx, depth + 1)?;
                 entries.push((k, v));
             }
             Ok(Value::Map(entries))
